@@ -8,6 +8,9 @@ Line protocol for C04 (see harness/c04/main.go):
   obs: ack <none|ok|fail> att <none|src|tgt|fwd> data <0|1> ret <switch|err|pending>
 The clock is 1000; exp 1 = expired at 500, exp 2 = expires at 2000.  This node is node-A, the other node-B.
 `ret` is compared between model and implementation but is not part of the property.
+  rmw <usage|stats|status>   obs: revoked <0|1> ack <..> att <..> data <0|1>
+    a whole-record update of mapping M is between its read and its write (gated store) when the target client revokes M;
+    afterwards the target client presents M's secret for the waiting tunnel.
   e2e      obs: secret <set|empty> src <ack> tgt <ack> data <0|1>
 A mapping created through the real PortMappingService without a secret, then listen client (mapping id) and target
 client (the generated secret) open the same tunnel: compared with the fixed expectation "both admitted, bytes flow".
@@ -44,12 +47,14 @@ def parseTs : List String → Option TunnelState
 
 /-- what appears while the request polls: `late bridge <mid>` = the listen client of <mid> opens the tunnel on
 this node (bridge + route to node-A), `late route <mid>` = only a route naming this node, `late remote <mid>` = a
-route naming node-B.  Absent = nothing appears. -/
+route naming node-B, `late window <mid>` = the listen client of <mid> opens the tunnel in the window between the
+dispatcher's bridge look-up and handleTargetBridge's (the requester's ack write is held meanwhile).  Absent = nothing. -/
 def parseLate : List String → Option Late
   | [] => some .none
   | ["late", "bridge", m] => some (.route m "node-A" true)
   | ["late", "route", m] => some (.route m "node-A" false)
   | ["late", "remote", m] => some (.route m "node-B" false)
+  | ["late", "window", m] => some (.window m)
   | _ => none
 
 def parseCase : List String → Option Case
@@ -92,7 +97,32 @@ def parseObs : List String → Option Obs
     pure ⟨a, t, d⟩
   | _ => none
 
+/-- `rmw <usage|stats|status>`: the writer's pending whole-record write and a revocation; under the per-mapping
+lock the revocation waits for the pending write, so the order is writer, then revocation. -/
+def rmwWriter : String → Option Update
+  | "usage" => some .usage | "stats" => some .stats | "status" => some (.status "active") | _ => none
+
+def rmwWorld (u : Update) : World :=
+  { mappings := [runSerial [u, .revoke] ⟨"M", 11, 22, "s3cretM", "active", false, none⟩], now := 1000, nodeID := "node-A" }
+
+def runRmwModel (u : Update) : String :=
+  let w := rmwWorld u
+  let ts := TunnelState.bridge "M" false
+  let ob := (openTunnel w ⟨true, 22, true⟩ ⟨true, "M", "verif-tunnel-01", "s3cretM", ""⟩ ts).obs ts
+  let rv := match w.mappings with | m :: _ => m.IsRevoked | [] => false
+  s!"revoked {if rv then "1" else "0"} ack {ackStr ob.ack} att {attStr ob.att} data {if ob.data then "1" else "0"}"
+
+def parseRmwObs : List String → Option (Bool × Obs)
+  | ["revoked", r, "ack", a, "att", t, "data", d] => do
+    let o ← parseObs ["ack", a, "att", t, "data", d, "ret", "-"]
+    let r ← (if r == "1" then some true else if r == "0" then some false else none)
+    pure (r, o)
+  | _ => none
+
 def runModel (ts : List String) : String :=
+  match ts with
+  | ["rmw", wr] => (match rmwWriter wr with | some u => runRmwModel u | none => "bad-case")
+  | _ =>
   if ts == ["e2e"] then "secret set src ok tgt ok data 1" else
   match parseCase ts with
   | some c =>
@@ -103,6 +133,8 @@ def runModel (ts : List String) : String :=
 
 def runHolds (caseToks obsToks : List String) : String :=
   -- `e2e` (legitimate parties are still served) is compared with the model line only; it is not the property
+  if caseToks.head? == some "rmw" then
+    (match parseRmwObs obsToks with | some (r, o) => boolStr (holdsRevoked r o) | none => "false") else
   if caseToks == ["e2e"] then boolStr (obsToks.head? == some "secret") else
   match parseCase caseToks, parseObs obsToks with
   | some c, some o => boolStr (holdsDyn c.w c.id c.req c.ts c.late o)
